@@ -203,7 +203,24 @@ def run(tier):
         f = impl3.get(cid, ["missing"])
         if not (f[0].startswith("err") and code in f[0]):
             smism += 1; ck.violation("malformed-accepted:" + code, "malformed literal %s should be rejected with E%s, got %s" % (lit, code, f[0]), src)
-    ck.log("characters/strings: %d programs, %d problems" % (len(ssrcs) + len(bsrcs), smism))
+    # string literals written by print!/format! next to other arguments: every byte arrives (per cent signs and
+    # conversion-like text included; a NUL ends the output: C01's listed D72, not repeated here)
+    pcs = []
+    for pi, lit in enumerate(["100%% of ", "%d%s%c%n", "%", "%%", "50% off %s", "a%5$lldb", "\\x25\\x64", "tab\\t%u\\n", "%.*s", "%lld %llu %p"]):
+        for form in ('print!("%s", x, "|\\n");', 'print!(x, "%s", "|\\n");', 'print!("%s");'):
+            pcs.append(("pc%d.%d" % (pi, len(pcs)), "fn main() -> u8\n{\n\tvar x: i32 = 7;\n\t%s\n\treturn: 0\n}\n" % (form % lit), lit, form))
+    pimpl = C.run_harness("exec", [(c[0], c[1]) for c in pcs], ck.work + "/percent", timeout=600)
+    for cid, src, lit, form in pcs:
+        f = pimpl.get(cid, ["missing"])
+        raw = lit.replace("\\x25", "%").replace("\\x64", "d").replace("\\t", "\t").replace("\\n", "\n").encode()
+        want = {0: raw + b"7|\n", 1: b"7" + raw + b"|\n", 2: raw, 3: raw + b"7|\n"}[['print!("%s", x', 'print!(x, "%s"', 'print!("%s");', 'var s = format!'].index([k for k in ('print!("%s", x', 'print!(x, "%s"', 'print!("%s");', 'var s = format!') if form.startswith(k)][0])]
+        if not f[0].startswith("ok"):
+            if not f[0].startswith("err codes="): ck.violation(C.failure_key(f[0]), "compiler failed: " + f[0][:160], src)
+            continue
+        got = C.unesc(f[1].split(" out=", 1)[1].split(" stderr=")[0]) if " out=" in f[1] else b"?"
+        if got != want:
+            smism += 1; ck.violation("printed-literal-altered", "the string literal \"%s\" is written as %r, its bytes (with the other items) are %r" % (lit, got, want), src)
+    ck.log("characters/strings: %d programs, %d problems" % (len(ssrcs) + len(bsrcs) + len(pcs), smism))
     # literals in type position (array lengths, only in size-of expressions: nothing is allocated) and the
     # range of usize on the 32-bit target: never silently altered
     lens = [0, 1, 255, 65536, (1 << 31) - 1, (1 << 32) - 1, (1 << 63) + 1, (1 << 64) - 1, 1 << 64, (1 << 64) + 3, (1 << 64) + (1 << 32), 1 << 100, (1 << 127) + 7, (1 << 128) - 1]
